@@ -23,7 +23,7 @@ func init() { core.Register(c04{}) }
 func (c04) ID() string    { return "C04" }
 func (c04) Level() string { return "exploration" }
 func (c04) Rule() string {
-	return "two history sources, both recorded at the container.SingletonComponentRegistry interface by a call tracer and checked offline against a sequential per-name state machine (absent -> creating[early reference?] -> published | failed). (1) direct driving of the real support.DefaultSingletonComponentRegistry() by a generated protocol-respecting client: random trees of nested get-or-create (depth <= 6, <= 8 names), creating closures that optionally add an early-reference factory (which may itself fail), look themselves / ancestors / other names up with and without allowEarlyReference, query IsSingletonCurrentlyInCreation, swallow or propagate nested failures, fail or succeed; histories continue after failures with re-lookups and re-creations. (2) traced real starts of cyclic / faulty scenarios (Init / AfterPropertiesSet failures in eager and lazy components) continued after App.Run with three rounds of GetComponentByName for every name; half of the injected faults are transient (fail once), and after a successful re-attempt the re-created components' wiring is compared per point with the reference model and for identity. Clauses: (a) all lookups during one creation see one early reference, early factory yields at most one reference per creation; (b) after publication every lookup returns the published instance and the name is not in creation; (c) after a failed creation the name is not in creation and no lookup returns an instance with a nil error unless a new creation completed. non-trivial = history with a nested create and an early lookup (and, counted separately, a failure followed by a lookup); distinct = trace shape hash; a harness post-processor requests other components from inside its after-instantiation / properties / before-initialization callbacks; transient early-factory faults, wrapper published after an early reference; a lookup with a registered factory ends with a reference or an error; a permanently failing callback never yields an instance for later lookups; a published singleton is never removed; early-reference callbacks failing with (nil, err); drivenSideBySide family: 2..8 clients (goroutines) each drive their own seeded programs over names of their own on ONE registry, every client's trace is judged by the same protocol checker; listings (GetComponents) of published names return the published object; the traced family also substitutes after initialisation and looks components up from Init under substitution; clause: the original is never published when an early version was handed out during the creation; the driven client re-registers its early-reference factory; holders and lookups agree after every failure-free start under a substituting post-processor"
+	return "two history sources, both recorded at the container.SingletonComponentRegistry interface by a call tracer and checked offline against a sequential per-name state machine (absent -> creating[early reference?] -> published | failed). (1) direct driving of the real support.DefaultSingletonComponentRegistry() by a generated protocol-respecting client: random trees of nested get-or-create (depth <= 6, <= 8 names), creating closures that optionally add an early-reference factory (which may itself fail), look themselves / ancestors / other names up with and without allowEarlyReference, query IsSingletonCurrentlyInCreation, swallow or propagate nested failures, fail or succeed; histories continue after failures with re-lookups and re-creations. (2) traced real starts of cyclic / faulty scenarios (Init / AfterPropertiesSet failures in eager and lazy components) continued after App.Run with three rounds of GetComponentByName for every name; half of the injected faults are transient (fail once), and after a successful re-attempt the re-created components' wiring is compared per point with the reference model and for identity. Clauses: (a) all lookups during one creation see one early reference, early factory yields at most one reference per creation; (b) after publication every lookup returns the published instance and the name is not in creation; (c) after a failed creation the name is not in creation and no lookup returns an instance with a nil error unless a new creation completed. non-trivial = history with a nested create and an early lookup (and, counted separately, a failure followed by a lookup); distinct = trace shape hash; a harness post-processor requests other components from inside its after-instantiation / properties / before-initialization callbacks; transient early-factory faults, wrapper published after an early reference; a lookup with a registered factory ends with a reference or an error; a permanently failing callback never yields an instance for later lookups; a published singleton is never removed; early-reference callbacks failing with (nil, err); drivenSideBySide family: 2..8 clients (goroutines) each drive their own seeded programs over names of their own on ONE registry, every client's trace is judged by the same protocol checker; listings (GetComponents) of published names return the published object; the traced family also substitutes after initialisation and looks components up from Init under substitution; clause: the original is never published when an early version was handed out during the creation; the driven client re-registers its early-reference factory; holders and lookups agree after every failure-free start under a substituting post-processor; reprepared family (a started factory prepared and refreshed a second time: same published instances, nothing initialised again)"
 }
 func (c04) Assumptions() []string {
 	return []string{
